@@ -59,6 +59,8 @@ elif sys.argv[1] == "--provisional":
     table()
 else:
     d = sys.argv[1].rstrip("/")
+    if os.path.exists(os.path.join(d, "DROPPED")):
+        print("dropped:", d); sys.exit(1)
     c = json.load(open(os.path.join(d, "confirm.json")))
     LOAD_SENSITIVE = ("import__execution_error_on_header_4_when_awaits_for_1000000_blocks",
                       "executes_5_tasks_for_5_seconds_with_one_thread", "executes_10_tasks_for_5_seconds_with_one_thread",
